@@ -3,6 +3,7 @@ package c30
 
 import (
 	"fmt"
+	"google.golang.org/protobuf/proto"
 	"math/rand"
 	"sort"
 	"strings"
@@ -59,6 +60,22 @@ func sizeClass(n int) string {
 }
 
 func oneCase(c *vk.Ctx, i int, p *sem.Prepared, contextual []*openfgav1.TupleKey, srv *drive.Srv) {
+	if i%4 == 1 {
+		// contextual tuples that REPEAT stored ones (second and later stored tuples of a node, so that the
+		// repeated user is not adjacent to its stored twin in read order): a user is listed once
+		seen := map[string]int{}
+		n := 0
+		for _, tk := range p.Stored {
+			k := tk.GetObject() + "#" + tk.GetRelation()
+			seen[k]++
+			if seen[k] >= 2 && n < 3 && p.Ref.ValidForRead(tk) {
+				dup := proto.Clone(tk).(*openfgav1.TupleKey)
+				contextual = append(append([]*openfgav1.TupleKey{}, contextual...), dup)
+				n++
+			}
+		}
+		c.Count("contextual_tuples_repeating_stored_ones", n)
+	}
 	all := p.AllTuples(contextual)
 	rc := ref.NewCase(p.Ref, all, nil)
 	byNode := map[string][]*openfgav1.TupleKey{}
